@@ -5,7 +5,7 @@ From Coq Require Import String NArith List Bool.
 From V Require Import Ssz.SszCore Beacon.Config Beacon.Schemas Beacon.State
   Beacon.Spec.Helpers Beacon.Spec.Epoch Beacon.Spec.Block Beacon.Spec.Transition Beacon.Run.
 From V Require Export Beacon.Proofs.ListFacts Beacon.Proofs.Frame Beacon.Proofs.Lengths Beacon.Proofs.Stability
-  Beacon.Proofs.EpcInv Beacon.Proofs.EpochBoundary Beacon.Proofs.ViewExt.
+  Beacon.Proofs.EpcInv Beacon.Proofs.EpochBoundary Beacon.Proofs.ViewExt Beacon.Proofs.SyncRotation.
 Import ListNotations.
 Local Open Scope N_scope.
 
@@ -98,6 +98,10 @@ Proof. exact li_process_slots. Qed.
 Theorem T_lengths_inv_state_transition : forall E f st bf sb v f' st',
   state_transition E f st bf sb v = Some (f', st') -> lengths_inv f st -> lengths_inv f' st'.
 Proof. exact li_state_transition. Qed.
+
+Theorem T_lengths_inv_genesis : forall E h t deps st,
+  initialize_beacon_state_from_eth1 E h t deps = Some st -> lengths_inv Phase0 st.
+Proof. exact li_genesis. Qed.
 
 (* ================= 4. validator-field stability and the mix frame (blocks) ================= *)
 Theorem T_vstable_refl : forall E ce vs, vstable E ce vs vs.
@@ -211,3 +215,15 @@ Theorem T_rotate_matches : forall E f st f' st',
   (forall s i, e <= compute_epoch_at_slot E s -> compute_epoch_at_slot E s <= e + 1 ->
      get_beacon_committee E st' s i = get_beacon_committee E st s i).
 Proof. exact rotate_matches. Qed.
+
+(* ================= 7. sync committees across process_epoch ================= *)
+Theorem T_process_epoch_sync : forall E f st st', process_epoch E f st = Some st' ->
+  match f with
+  | Phase0 => current_sync_committee st' = current_sync_committee st /\ next_sync_committee st' = next_sync_committee st
+  | _ =>
+      if (get_current_epoch E st + 1) mod EPOCHS_PER_SYNC_COMMITTEE_PERIOD (cfg E) =? 0
+      then current_sync_committee st' = next_sync_committee st /\
+           exists pre, sc_same st pre /\ get_next_sync_committee E pre = Some (next_sync_committee st')
+      else current_sync_committee st' = current_sync_committee st /\ next_sync_committee st' = next_sync_committee st
+  end.
+Proof. exact process_epoch_sync. Qed.
